@@ -176,7 +176,7 @@ def run_expr(h: dict, out: hlib.RecWriter, src: str, exp=None) -> None:
     """h = {start: {c, src}, steps: [{f, c, src}], how}: evaluate left to right, one record per operator."""
     q = src_den(h['start']['c'], h['start']['src'])
     for s in h['steps']:
-        q *= src_den(s['c'], s['src'])
+        q *= q if s['c'] == 'self' else src_den(s['c'], s['src'])
     if q > 4_000_000:
         raise Skip
     how = h.get('how', 0)
@@ -185,15 +185,17 @@ def run_expr(h: dict, out: hlib.RecWriter, src: str, exp=None) -> None:
     cur_op = src_opnd(h['start']['c'], h['start']['src'])
     err_final = ''
     for idx, s in enumerate(h['steps']):
-        rhs = build(s['c'], src_vals(s['c'], s['src']), how + idx)
         lcls = cls_name(cur)
+        selfop = s['c'] == 'self'
+        rhs = cur if selfop else build(s['c'], src_vals(s['c'], s['src']), how + idx)
+        rcls = lcls if selfop else s['c']
         res, et = apply(s['f'], cur, rhs)
         la, _, e1 = project(cur, q)
         ra, _, e2 = project(rhs, q)
-        rec = {'k': 'step', 'Q': q, 'lcls': lcls, 'form': s['f'], 'rcls': s['c'], 'l': cur_op,
-               'r': src_opnd(s['c'], s['src']), 'exc': bool(et), 'et': et, 'res': {}, 'la': la, 'ra': ra,
+        rec = {'k': 'step', 'Q': q, 'lcls': lcls, 'form': s['f'], 'rcls': rcls, 'l': cur_op, 'self': selfop,
+               'r': cur_op if selfop else src_opnd(s['c'], s['src']), 'exc': bool(et), 'et': et, 'res': {}, 'la': la, 'ra': ra,
                'e': 0, 'ep': 0, 'tol': 1000,
-               'sig': {'kind': 'step', 'action': s['f'], 'lcls': lcls, 'rcls': s['c'], 'src': src},
+               'sig': {'kind': 'step', 'action': s['f'], 'lcls': lcls, 'rcls': rcls, 'src': src, 'selfop': selfop},
                'hist': dict(h, steps=h['steps'][:idx + 1])}
         if not et:
             n, _, e3 = project(res, q)
@@ -205,12 +207,18 @@ def run_expr(h: dict, out: hlib.RecWriter, src: str, exp=None) -> None:
         if et:
             err_final = et
             break
+        if eint(e3) > 1000 or selfop:
+            # the result is not a value of the exact domain (reported by this record's tolerance/value clauses),
+            # or the object was its own operand (a wrong in-place product need not stay on the domain): the
+            # expression is judged up to this operator only
+            exp = None
+            break
         cur, cur_op = res, {'t': 'rat', 'n': n, 'd': q}
     if exp is not None:
         fin = {'k': 'final', 'Q': q, 'exp': exp, 'exc': bool(err_final), 'res': {}, 'e': 0, 'ep': 0, 'tol': 1000,
                'sig': {'kind': 'final', 'action': h['steps'][-1]['f'] if h['steps'] else 'start',
                        'lcls': recs[-1]['lcls'] if recs else h['start']['c'],
-                       'rcls': h['steps'][-1]['c'] if h['steps'] else '', 'src': src},
+                       'rcls': h['steps'][-1]['c'] if h['steps'] else '', 'src': src, 'selfop': False},
                'hist': h}
         if not err_final:
             n, _, e = project(cur, q)
@@ -231,7 +239,7 @@ def tla_src(cls: str, a):
 
 def edge_hist(e: dict) -> dict:
     return {'start': {'c': e['start']['c'], 'src': tla_src(e['start']['c'], e['start']['a'])},
-            'steps': [{'f': s['f'], 'c': s['c'], 'src': tla_src(s['c'], s['a'])} for s in e['hist']]}
+            'steps': [{'f': s['f'], 'c': s['c'], 'src': [] if s['c'] == 'self' else tla_src(s['c'], s['a'])} for s in e['hist']]}
 
 
 def mode_edges(edge_file: str, out: hlib.RecWriter, stats: dict) -> None:
@@ -277,7 +285,10 @@ def func_records(trip, out: hlib.RecWriter, how: int, src: str) -> None:
     out.write({'k': 'ta', 'Q': q, 'm': {'t': 'ang', 'a': a}, 'out': pt, 'outm': n, 'e': eint(e), 'ep': eint(ep), 'tol': 1000,
                'sig': sig('to_angle'), 'hist': hist})
     tr, _, e1 = project(mat.transpose(), q)
-    inv, _, e2 = project(mat.inverse(), q)
+    try:
+        inv, _, e2 = project(mat.inverse(), q)
+    except ArithmeticError:
+        inv, e2 = [], 0.0
     out.write({'k': 'inv', 'Q': q, 'm': {'t': 'ang', 'a': a}, 'tr': tr, 'inv': inv, 'e': eint(max(e1, e2)), 'tol': 1000,
                'sig': sig('inverse'), 'hist': hist})
 
@@ -313,7 +324,7 @@ def mode_shapes_exact(shapes: list, out: hlib.RecWriter, rng: random.Random, sta
             hot = rng.randrange(len(shp['steps']) + 1)      # at most one or two non-lattice operands
             d = rng.choice(dens)
             h = {'start': {'c': shp['start'], 'src': rand_src(rng, shp['start'], d if hot == 0 or d == 5 else 1)},
-                 'steps': [{'f': f, 'c': c, 'src': rand_src(rng, c, d if hot == i + 1 or d == 5 else 1)}
+                 'steps': [{'f': f, 'c': c, 'src': [] if c == 'self' else rand_src(rng, c, d if hot == i + 1 or d == 5 else 1)}
                            for i, (f, c) in enumerate(shp['steps'])],
                  'how': rng.randrange(6)}
             buf = _Buf()
@@ -395,7 +406,11 @@ def num_value_laws(out, vals: list, flavour: str, how: int) -> None:
     if tol is not None:
         back = type(m).from_angle(m.to_angle())
         num_rec(out, 'roundtrip', maxdiff(flat(mat_of(back)), flat(mf)), tol, dict(sig, gimbal=tol > 1e-9), case)
-    num_rec(out, 'inverse', maxdiff(flat(mat_of(m.inverse())), flat(mat_of(m.transpose()))), 1e-9, sig, case)
+    try:
+        inv_resid = maxdiff(flat(mat_of(m.inverse())), flat(mat_of(m.transpose())))
+    except ArithmeticError:      # "no inverse" for a rotation matrix is a violation, not a harness failure
+        inv_resid = 1.0
+    num_rec(out, 'inverse', inv_resid, 1e-9, sig, case)
 
 
 def num_expr(out, shp: dict, rng: random.Random, flavour: str) -> None:
@@ -403,6 +418,8 @@ def num_expr(out, shp: dict, rng: random.Random, flavour: str) -> None:
     algebra, and the left-associated result against the implementation's own right-associated one."""
     how = rng.randrange(6)
     svals = gen_vec(rng) if shp['start'] in VEC else gen_angle(rng, flavour)
+    if any(c == 'self' for _, c in shp['steps']):
+        return          # self-operand shapes are judged on the exact domain only
     steps = [(f, c, gen_vec(rng) if c in VEC else gen_angle(rng, flavour)) for f, c in shp['steps']]
     case = {'start': [shp['start'], svals], 'steps': [[f, c, v] for f, c, v in steps], 'how': how, 'flavour': flavour,
             'err': shp.get('err', False)}
@@ -468,7 +485,7 @@ def mode_shapes(edge_file: str, out: hlib.RecWriter, stats: dict) -> None:
     thorough = hlib.tier() == 'thorough'
     mode_shapes_exact(shapes, out, rng, stats, 6 if thorough else 2)
     n_num = 0
-    for rep in range(12 if thorough else 3):
+    for rep in range(12 if thorough else 2):
         for shp in shapes:
             for flavour in ('real', 'm15', 'pole'):
                 before = out.n
@@ -482,7 +499,7 @@ def mode_shapes(edge_file: str, out: hlib.RecWriter, stats: dict) -> None:
             for r in (grid if thorough else grid[::3]):
                 how += 1
                 num_value_laws(out, [p, y, r], 'm15', how)
-    for _ in range(20000 if thorough else 3000):
+    for _ in range(20000 if thorough else 2500):
         how += 1
         fl = rng.choice(['real', 'pole', 'pole'])
         num_value_laws(out, gen_angle(rng, fl), fl, how)
